@@ -115,6 +115,23 @@ ObsReasons ==
     \* every configured worker answered part of a burst wide enough to reach all of them (-1: not probed)
     \cup (IF "served" \in DOMAIN Run /\ "answering_workers" \in DOMAIN Run.served /\ Run.served.answering_workers >= 0
              /\ Run.served.answering_workers < m.n THEN {"not_all_workers_serving"} ELSE {})
+    \* statistics audit (C17 end to end: worker timers, queue, reporter thread, files): the column sums of every file the
+    \* reporter wrote are exactly the traffic the harness sent and received; everything came from one address
+    \cup (IF "audit" \in DOMAIN Run
+          THEN LET a == Run.audit
+                   \* The queue between workers and reporter holds two snapshots per worker and force_push drops the OLDEST when it
+                   \* is full (Stats.tla Snapshot). The reporter pops once per second; a worker publishes every status_interval / 10.
+                   \* With status_interval < 10 s a worker can publish more than twice between two pops: snapshots may be dropped,
+                   \* and then the files hold LESS than the traffic (never more, never anything else). From 10 s on nothing is
+                   \* dropped and the files hold exactly the traffic.
+                   lossy == a.status_interval < 10
+                   Rel(got, want) == IF lossy THEN got <= want ELSE got = want
+               IN
+               IF /\ a.readable /\ (lossy \/ a.files >= 1) /\ (a.files >= 1 => a.ips = <<"127.0.0.1">>)
+                  /\ Rel(a.valid, a.exp_valid) /\ Rel(a.invalid, a.exp_invalid) /\ Rel(a.responses, a.exp_responses) /\ Rel(a.bytes, a.exp_bytes)
+                  /\ a.failed = 0 /\ a.exp_responses = a.exp_valid /\ a.responses <= a.valid
+               THEN {} ELSE {"stats_files_mismatch"}
+          ELSE {})
     \cup (IF s.stderr_panic \/ f.stderr_panic THEN {"panic_output"} ELSE {})
     \cup (IF (s.alive /\ s.panicked_threads > 0) \/ (f.alive /\ f.stderr_panic) THEN {"keeps_running_degraded"} ELSE {})
     \cup (IF ~s.announced_ok /\ s.alive THEN {"announced_key"} ELSE {})
